@@ -131,8 +131,8 @@ def main(tier):
     js = jobs(tier)
     # built in two stages with a throw-away solve in between: state left in the problem / tasks by an earlier solver
     sub = [j for j in js if j["family"].startswith(("pair", "with/"))]
-    js += common.staged(sub, stride=2 if tier == "quick" else 1, kinds=("solve", "init", "older"))
+    js += common.staged(sub, stride=2, kinds=("solve", "init", "older"))
     # ... and with the solver object created before the declarations
-    js += common.early(sub, stride=3 if tier == "quick" else 1)
+    js += common.early(sub, stride=3)
     return common.run_space_check("C01", tier, js, RULE, ASSUME,
                                   budget_s=480 if tier == "quick" else 3000)
